@@ -1,9 +1,17 @@
 (* Properties_C04.v — C04: selecting / replicating / joining / generating views equal their reference
-   result.  Statements only; every proof is [exact lemma].  All statements hold for EVERY dimension and
-   EVERY extent of the stated domain.  Routines without an element theorem here are "correspondence-only"
-   (model vs C++ vs Spec on the explored grid), see notes/C04.md. *)
+   result.  Statements only; every proof is [exact lemma] (or a conjunction of lemmas).  All statements hold
+   for EVERY dimension and EVERY extent of the stated domain.  Model = Select.v (image of the C++), Spec =
+   the np_ / doc_ definitions of Select.v.  "…_inb" parts are the copy statement of the property: the
+   designated source index of a non-fill element lies inside the source (property C02 cites them).
+   Routines without an element theorem here (sliding_window, diagonal, roll with a tuple of axes, the stack
+   family, split, expand, compress, repeat with per-element counts, where, arange / linspace / full) are
+   CORRESPONDENCE-ONLY: modelled, specified and compared with the C++ on the explored grid, not proved. *)
 From NM Require Import Base Index IndexProofs Select SelectProofs.
 Local Open Scope Z_scope.
+
+(* closed witnesses: every conjunct is decided by computation *)
+Ltac witness := repeat match goal with |- _ /\ _ => split end;
+  try (repeat constructor; lia); try reflexivity; try (vm_compute; discriminate); try (vm_compute; reflexivity).
 
 (* ---------- tile ---------- *)
 (* NumPy's shape for every source shape and every reps list (no hypothesis at all) *)
@@ -20,7 +28,217 @@ Proof.
 Qed.
 Print Assumptions C04_tile_element.
 
+(* ---------- repeat, scalar count ---------- *)
+(* axis = None: 1-d result of size numel*r whose k-th element is the flat source element k / r *)
+Theorem C04_repeat_flat : forall s r k, pos s -> 1 <= r -> inb [k] (shape_repeat_none s r) ->
+  shape_repeat_none s r = np_repeat_none_shape s r
+  /\ inb (repeat_none_index s r [k]) s
+  /\ horner 0 (repeat_none_index s r [k]) s = np_repeat_none_flat r k.
+Proof. exact repeat_none_spec. Qed.
+Print Assumptions C04_repeat_flat.
+
+(* 0 <= axis < dim: that extent is multiplied, coordinate j reads source coordinate j / r *)
+Theorem C04_repeat_axis_on_domain : forall s r a i, pos s -> 1 <= r -> 0 <= a < zlen s ->
+  exists d, shape_repeat_axis s r a = Val d /\ np_repeat_axis_shape s r a = Some d
+    /\ (inb i d -> np_repeat_axis_index i r a = Some (repeat_axis_index i r a) /\ inb (repeat_axis_index i r a) s).
+Proof.
+  intros s r a i Hp Hr Ha. destruct (repeat_axis_shape_spec s r a Ha) as [H1 H2].
+  eexists. split; [exact H1|]. split; [exact H2|]. intros Hi. exact (repeat_axis_elem_spec s r a i Hp Hr Ha Hi).
+Qed.
+Print Assumptions C04_repeat_axis_on_domain.
+
+(* the full statement (every valid NumPy axis, negative included) fails: the axis is never normalised *)
+Theorem C04_repeat_negative_axis_refuted : exists s r a i d,
+  pos s /\ 1 <= r /\ - zlen s <= a < 0 /\ np_repeat_axis_shape s r a = Some d /\ inb i d
+  /\ np_repeat_axis_index i r a <> Some (repeat_axis_index i r a) /\ inbb (repeat_axis_index i r a) s = false.
+Proof.
+  exists [2;3], 2, (-1), [0;5], [2;6]. witness.
+Qed.
+Print Assumptions C04_repeat_negative_axis_refuted.
+
+(* ---------- roll ---------- *)
+(* one axis (negative axes included), ANY shift (sign, magnitude): coordinate j reads (j - shift) mod n *)
+Theorem C04_roll_axis : forall s i shift a, pos s -> - zlen s <= a < zlen s -> inb i s ->
+  shape_roll_axis s a = Val s
+  /\ np_roll_axis_index s i shift a = Some (roll_axis_index s i shift a)
+  /\ inb (roll_axis_index s i shift a) s.
+Proof. exact roll_axis_spec. Qed.
+Print Assumptions C04_roll_axis.
+
+(* axis = None (flatten, roll, reshape): element i is the flat source element (rank(i) - shift) mod numel *)
+Theorem C04_roll_flat : forall s i shift, pos s -> inb i s ->
+  inb (roll_none_index s i shift) s
+  /\ horner 0 (roll_none_index s i shift) s = np_roll_none_flat s shift (horner 0 i s).
+Proof. exact roll_none_spec. Qed.
+Print Assumptions C04_roll_flat.
+
+(* tuple of axes: NumPy adds the shifts of equal axes, the code lets the last one win *)
+Theorem C04_roll_repeated_axis_refuted : exists s i shifts axes,
+  pos s /\ inb i s /\ shape_roll_axes s axes = Val s
+  /\ np_roll_axes_index s i shifts axes <> Some (roll_axes_index s i shifts axes).
+Proof.
+  exists [2;3], [0;0], [1;1], [1;1]. witness.
+Qed.
+Print Assumptions C04_roll_repeated_axis_refuted.
+
+(* ---------- pad ---------- *)
+(* documented definition: widths [before.., after..]; inside the source block the element is a[i - before],
+   the fill value elsewhere; the designated index is in bounds *)
+Theorem C04_pad : forall s w i, zlen s * 2 = zlen w ->
+  exists d, shape_pad s w = Val d /\ doc_pad_shape s w = Some d
+    /\ (length i = length s -> pad_index i s w = doc_pad_index s w i
+        /\ forall j, pad_index i s w = Some j -> inb j s).
+Proof.
+  intros s w i H. destruct (pad_shape_spec s w H) as [d [H1 H2]]. exists d. split; [exact H1|]. split; [exact H2|].
+  intros Hl. assert (Hw : (length s <= length w)%nat) by (unfold zlen in H; lia).
+  split; [exact (pad_elem_spec s i w Hl Hw)|]. intros j Hj. exact (pad_inb s i w j Hj Hl Hw).
+Qed.
+Print Assumptions C04_pad.
+
+(* ---------- take ---------- *)
+Theorem C04_take_axis_on_domain : forall s ind a i, 0 <= a < zlen s ->
+  Forall (fun x => 0 <= x < nth (Z.to_nat a) s 0) ind -> nth (Z.to_nat a) s 0 <= 2 ^ 64 ->
+  exists d, shape_take_axis s ind a = d /\ np_take_axis_shape s ind a = Some d
+    /\ (inb i d -> np_take_axis_index s ind i a = Some (take_axis_index ind i a) /\ inb (take_axis_index ind i a) s).
+Proof.
+  intros s ind a i Ha HF Hw. destruct (take_axis_shape_spec s ind a Ha) as [H1 H2].
+  eexists. split; [exact H1|]. split; [exact H2|]. intros Hi. exact (take_axis_elem_spec s ind a i Ha HF Hw Hi).
+Qed.
+Print Assumptions C04_take_axis_on_domain.
+
+Theorem C04_take_flat_on_domain : forall s ind k, pos s -> prod s <= 2 ^ 64 ->
+  Forall (fun x => 0 <= x < prod s) ind -> inb [k] (shape_take_none ind) ->
+  shape_take_none ind = np_take_none_shape ind
+  /\ inb (take_none_index s ind [k]) s
+  /\ np_take_none_flat s ind k = Some (horner 0 (take_none_index s ind [k]) s).
+Proof. exact take_none_spec. Qed.
+Print Assumptions C04_take_flat_on_domain.
+
+Theorem C04_take_negative_axis_refuted : exists s ind a,
+  pos s /\ - zlen s <= a < 0 /\ np_take_axis_shape s ind a <> Some (shape_take_axis s ind a).
+Proof. exists [2;3], [1;0], (-1). witness. Qed.
+Print Assumptions C04_take_negative_axis_refuted.
+
+Theorem C04_take_negative_index_refuted : exists s ind k,
+  pos s /\ inb [k] (shape_take_none ind)
+  /\ np_take_none_flat s ind k <> Some (horner 0 (take_none_index s ind [k]) s).
+Proof. exists [2;3], [-1], 0. witness. Qed.
+Print Assumptions C04_take_negative_index_refuted.
+
+(* compress = take of the true positions; the same un-normalised axis comparison *)
+Theorem C04_compress_negative_axis_refuted : exists s c a,
+  pos s /\ - zlen s <= a < 0 /\ np_take_axis_shape s (np_true_positions c) a <> Some (shape_compress_axis s c a).
+Proof. exists [2;3], [0;1], (-1). witness. Qed.
+Print Assumptions C04_compress_negative_axis_refuted.
+
+(* ---------- resize (nearest neighbour) ---------- *)
+Theorem C04_resize : forall s d r i, pos s -> doc_resize_shape s d = Some r ->
+  shape_resize s d = Val r
+  /\ (length s = length d -> inb i d -> resize_index i s d = doc_resize_index s d i /\ inb (resize_index i s d) s).
+Proof.
+  intros s d r i Hp H. split; [exact (resize_shape_spec s d r H)|]. intros Hl Hi. exact (resize_elem_spec s d i Hl Hp Hi).
+Qed.
+Print Assumptions C04_resize.
+
+(* ---------- concatenate ---------- *)
+Theorem C04_concatenate_axis_on_domain : forall a b axis d i, 0 <= axis < zlen a ->
+  np_concat_axis_shape a b axis = Some d ->
+  shape_concat_axis a b axis = Val d
+  /\ (inb i d -> concat_axis_index a b i axis = np_concat_axis_index a i axis
+      /\ match concat_axis_index a b i axis with
+         | OpLeft j => inb j a | OpRight j => inb j b | OpNeither => False end).
+Proof.
+  intros a b axis d i Ha H. split; [exact (concat_axis_shape_spec a b axis d Ha H)|].
+  intros Hi. exact (concat_axis_elem_spec a b axis d i Ha H Hi).
+Qed.
+Print Assumptions C04_concatenate_axis_on_domain.
+
+Theorem C04_concatenate_flat : forall a b k, pos a -> pos b -> inb [k] (shape_concat_none a b) ->
+  shape_concat_none a b = np_concat_none_shape a b
+  /\ match concat_none_index a b [k] with
+     | OpLeft j => inb j a /\ np_concat_none_flat a k = (false, horner 0 j a)
+     | OpRight j => inb j b /\ np_concat_none_flat a k = (true, horner 0 j b)
+     | OpNeither => False end.
+Proof. exact concat_none_spec. Qed.
+Print Assumptions C04_concatenate_flat.
+
+Theorem C04_concatenate_negative_axis_refuted : exists a b axis d,
+  pos a /\ pos b /\ - zlen a <= axis < 0 /\ np_concat_axis_shape a b axis = Some d /\ shape_concat_axis a b axis <> Val d.
+Proof. exists [2;3], [2;2], (-1), [2;5]. witness. Qed.
+Print Assumptions C04_concatenate_negative_axis_refuted.
+
+(* ---------- tril / triu / tri / eye / diagflat ---------- *)
+Theorem C04_tril_triu : forall s i k, (2 <= length s)%nat -> inb i s ->
+  (tril_index s i k = (if np_tril_keep i k then Some (np_tri_source s i) else None)
+   /\ forall j, tril_index s i k = Some j -> inb j s)
+  /\ (triu_index s i k = (if np_triu_keep i k then Some (np_tri_source s i) else None)
+   /\ forall j, triu_index s i k = Some j -> inb j s).
+Proof. intros s i k Hs Hi. split; [exact (tril_spec s i k Hs Hi) | exact (triu_spec s i k Hs Hi)]. Qed.
+Print Assumptions C04_tril_triu.
+
+Theorem C04_tril_triu_1d : forall n r c k, 0 <= r < n -> 0 <= c < n ->
+  shape_tri_like [n] = [n; n]
+  /\ tril_index [n] [r; c] k = (if np_tril_keep [r; c] k then Some (np_tri_source [n] [r; c]) else None)
+  /\ triu_index [n] [r; c] k = (if np_triu_keep [r; c] k then Some (np_tri_source [n] [r; c]) else None)
+  /\ inb (np_tri_source [n] [r; c]) [n].
+Proof. exact tril_triu_1d_spec. Qed.
+Print Assumptions C04_tril_triu_1d.
+
+Theorem C04_tri_eye : forall r c k,
+  tri_is_one [r; c] k = (c <=? r + k) /\ eye_is_one [r; c] k = (c - r =? k).
+Proof. exact tri_eye_spec. Qed.
+Print Assumptions C04_tri_eye.
+
+Theorem C04_diagflat : forall n k r c, 0 <= n -> 0 <= r < n + Z.abs k -> 0 <= c < n + Z.abs k ->
+  match diagflat_index [r; c] k, np_diagflat_index [r; c] k with
+  | Some [j], Some j' => j = j' /\ 0 <= j < n
+  | None, None => True
+  | _, _ => False
+  end.
+Proof. exact diagflat_spec. Qed.
+Print Assumptions C04_diagflat.
+
+(* ---------- diagonal, arange, linspace: refutations of the full statement ---------- *)
+Theorem C04_diagonal_negative_offset_refuted : exists s offset i d,
+  pos s /\ np_diagonal_shape s offset 0 1 = Some d /\ inb i d
+  /\ np_diagonal_index 2 i offset 0 1 <> Some (diagonal_index 2 i offset 0 1)
+  /\ inbb (diagonal_index 2 i offset 0 1) s = false.
+Proof.
+  exists [3;3], (-1), [0], [2]. witness.
+Qed.
+Print Assumptions C04_diagonal_negative_offset_refuted.
+
+Theorem C04_arange_negative_count_refuted : exists start stop p q,
+  p <> 0 /\ 0 < q /\ arange_len start stop p q <> Val (np_arange_len start stop p q).
+Proof. exists 3, 0, 1, 1. witness. Qed.
+Print Assumptions C04_arange_negative_count_refuted.
+
+Theorem C04_linspace_num1_endpoint_refuted : exists start stop,
+  snd (linspace_elem start stop 1 true 0) = 0 /\ np_linspace_elem start stop 1 true 0 = (start, 1).
+Proof. exists 2, 5. split; reflexivity. Qed.
+Print Assumptions C04_linspace_num1_endpoint_refuted.
+
 (* ---------- non-vacuity ---------- *)
 Example C04_nonvacuous_tile : pos [2;3] /\ shape_tile [2;3] [2;1;2] = [2;2;6] /\ inb [1;1;4] [2;2;6]
   /\ tile_index [2;3] [1;1;4] = [1;1].
+Proof. repeat split; try (repeat constructor; lia). Qed.
+Example C04_nonvacuous_repeat : pos [2;3] /\ shape_repeat_axis [2;3] 2 1 = Val [2;6] /\ inb [1;5] [2;6]
+  /\ repeat_axis_index [1;5] 2 1 = [1;2] /\ repeat_none_index [2;3] 2 [11] = [1;2].
+Proof. repeat split; try (repeat constructor; lia). Qed.
+Example C04_nonvacuous_roll : pos [2;3] /\ inb [1;0] [2;3] /\ roll_axis_index [2;3] [1;0] 5 (-1) = [1;1]
+  /\ roll_axis_index [2;3] [1;0] (-7) 1 = [1;1] /\ roll_none_index [2;3] [0;0] (-7) = [0;1].
+Proof. repeat split; try (repeat constructor; lia). Qed.
+Example C04_nonvacuous_pad : shape_pad [2;3] [1;0;2;1] = Val [5;4] /\ pad_index [1;2] [2;3] [1;0;2;1] = Some [0;2]
+  /\ pad_index [0;2] [2;3] [1;0;2;1] = None.
+Proof. repeat split. Qed.
+Example C04_nonvacuous_take : shape_take_axis [2;3] [2;0;0] 1 = [2;3] /\ take_axis_index [2;0;0] [1;0] 1 = [1;2]
+  /\ Forall (fun x => 0 <= x < nth (Z.to_nat 1) [2;3] 0) [2;0;0].
+Proof. repeat split; repeat constructor; cbn; lia. Qed.
+Example C04_nonvacuous_concat : np_concat_axis_shape [2;3] [2;2] 1 = Some [2;5] /\ inb [1;4] [2;5]
+  /\ concat_axis_index [2;3] [2;2] [1;4] 1 = OpRight [1;1] /\ concat_axis_index [2;3] [2;2] [1;2] 1 = OpLeft [1;2].
+Proof. repeat split; try (repeat constructor; lia). Qed.
+Example C04_nonvacuous_resize : doc_resize_shape [2;3] [4;2] = Some [4;2] /\ resize_index [3;1] [2;3] [4;2] = [1;1].
+Proof. split; reflexivity. Qed.
+Example C04_nonvacuous_tril : inb [1;2] [3;3] /\ tril_index [3;3] [1;2] 0 = None /\ tril_index [3;3] [2;1] 0 = Some [2;1]
+  /\ triu_index [3;3] [1;2] 0 = Some [1;2].
 Proof. repeat split; try (repeat constructor; lia). Qed.
